@@ -507,3 +507,74 @@ def stmts_in_order(fn):
         for kind, e in fn.blocks[bid].elems():
             if kind == "s":
                 yield e
+
+
+# -------------------------------------------------- feasibility-pruned path search
+def _norm_fact(f):
+    import re
+    atom, pol = f
+    m = re.match(r"^\((.*) (!=|==) (.*)\)$", atom)
+    if m and m.group(2) == "!=":
+        return ("(%s == %s)" % (m.group(1), m.group(3)), not pol)
+    return (atom, pol)
+
+
+def path_exists_feasible(fn, src, dst_pred, avoid=lambda pos, elem: False, kill="assign", max_states=200000):
+    """like path_exists, but tracks the branch facts established along the path
+    (killed by assignments to what they mention) and prunes an edge whose
+    condition contradicts a fact still in force — removes the classic
+    `if (ok) step1; if (ok) step2; if (!ok) return;` false paths."""
+    kill_fn = assigned_roots if kill == "assign" else written_roots
+    bid, idx = src
+    start = (bid, idx + 1, frozenset())
+    work = deque([(start, (bid,))])
+    seen = set()
+    while work:
+        (b, i, facts), path = work.popleft()
+        if (b, i, facts) in seen:
+            continue
+        seen.add((b, i, facts))
+        if len(seen) > max_states:
+            return list(path)          # give up conservatively: report reachable
+        blk = fn.blocks[b]
+        elems = blk.raw_elems
+        blocked = False
+        j = i
+        while j < len(elems):
+            e = elems[j]
+            if dst_pred((b, j), e):
+                return list(path)
+            if avoid((b, j), e):
+                blocked = True
+                break
+            w = kill_fn(fn, e)
+            if w and facts:
+                facts = frozenset(f for f in facts if not fact_mentions(f[0], w))
+            j += 1
+        if blocked:
+            continue
+        if dst_pred((b, len(elems)), "TERM"):
+            return list(path)
+        if avoid((b, len(elems)), "TERM"):
+            continue
+        if b == fn.exit:
+            if dst_pred((b, 0), "EXIT"):
+                return list(path)
+            continue
+        if blk.noreturn:
+            continue
+        c = blk.effective_cond()
+        two = blk.term is not None and c is not None and len(blk.succs) == 2 and blk.term["cls"] in (
+            "IfStmt", "WhileStmt", "ForStmt", "DoStmt", "ConditionalOperator", "BinaryOperator")
+        for si, s in enumerate(blk.succs):
+            if s is None:
+                continue
+            nf = facts
+            if two:
+                new = set(_norm_fact(x) for x in cond_atoms(c, si == 0))
+                cur = set(_norm_fact(x) for x in facts)
+                if any((a, not p) in cur for a, p in new):
+                    continue        # contradicts a fact in force: infeasible edge
+                nf = frozenset(cur | new)
+            work.append(((s, 0, nf), path + (s,)))
+    return None
